@@ -78,6 +78,17 @@ def gen_cases(tier, seed):
                 mode = r.choice(["s", "c", "ct"]) + str(r.choice([64, 256, 1024]))
                 n += 1
                 cs.append(Case("hb%d" % n, "hb", [mode, I, T, H] + sc, "%s/%s" % (mode, name), True, meta={"pattern": name, "bounded": True}))
+    # the peer vanishes (stops reading, never closes) after answering its first k requests at once; the client's transport
+    # is a 64 / 256-byte pipe that fills up, so the next write stays pending. Implementation only (the model's writes are
+    # instantaneous); judged by the same detection bound; known finding F4.
+    for Is, Ts in ((1, 3), (2, 5), (3, 2), (10, 30), (30, 10)):
+        I, T = Is * 1000, Ts * 1000
+        for k in (1, 3):
+            for cap in (64, 256):
+                H = k * I + T + 3 * I + 2000
+                n += 1
+                cs.append(Case("hz%d" % n, "hb", ["z%d" % cap, I, T, H] + [0] * k, "z%d/vanish" % cap, True,
+                               meta={"pattern": "vanish-after-%d" % k}, model=False))
     return cs
 
 
@@ -95,7 +106,32 @@ def parse(ir):
         return None, None, ["unreadable"]
 
 
+def oracle_vanish(c, ir):
+    I, T, H = int(c.args[1]), int(c.args[2]), int(c.args[3])
+    k = len(c.args) - 4
+    try:
+        left, right = ir.split("|")
+        reqs = [int(x) for x in left.split()[1:]]
+        rt = right.split()
+    except ValueError:
+        return "[malformed] implementation result: %s" % ir[:200]
+    answered = reqs[:k]
+    last_answer = max(answered) if answered else 0
+    limit = last_answer + T + I
+    closed_flag = rt[0] == "c" or "flag-set" in rt
+    if rt[0] == "c" and int(rt[1]) < last_answer + T:
+        return "[false_close] closed at %s although the last answer arrived at %d (timeout %d)" % (rt[1], last_answer, T)
+    if not closed_flag and H >= limit + 2:
+        return ("[F4-stalled-transport] the peer answered until %d and then vanished without closing (it no longer reads: the client's "
+                "%s-byte pipe is full and the next write stays pending); the session is still not closed at %d, limit %d = last answer + timeout %d "
+                "+ interval %d: the monitor's own HeartRequest waits for the transport / the writer mutex and the deadline is never examined"
+                % (last_answer, c.args[0][1:], H, limit, T, I))
+    return None
+
+
 def oracle(c, ir):
+    if str(c.args[0]).startswith("z"):
+        return oracle_vanish(c, ir)
     mode, I, T, H = c.args[0], int(c.args[1]), int(c.args[2]), int(c.args[3])
     script = [None if a == "x" else int(a) for a in c.args[4:]]
     reqs, closed, extra = parse(ir)
@@ -137,3 +173,12 @@ def oracle(c, ir):
 
 def same(c, ir, mr):
     return ir == mr
+
+
+def match_known(c, failure, findings):
+    if not failure.startswith("[F4-stalled-transport] ") or not str(c.args[0]).startswith("z"):
+        return None
+    for k in findings:
+        if k.get("match", {}).get("oracle_tag") == "F4-stalled-transport":
+            return k
+    return None
